@@ -188,6 +188,9 @@ func (a *Authenticator) receivePAP(data []byte) error {
 	if int(length) > len(data) {
 		return fmt.Errorf("PAP length exceeds packet")
 	}
+	if length < 4 {
+		return fmt.Errorf("PAP length below header size")
+	}
 
 	switch code {
 	case PAPCodeAuthRequest:
@@ -308,6 +311,9 @@ func (a *Authenticator) receiveCHAP(data []byte) error {
 
 	if int(length) > len(data) {
 		return fmt.Errorf("CHAP length exceeds packet")
+	}
+	if length < 4 {
+		return fmt.Errorf("CHAP length below header size")
 	}
 
 	switch code {
